@@ -57,7 +57,8 @@ def gen(rng, tier, no, wide=False):
     case = {"cfg": base["cfg"], "ranks": base["ranks"], "test_ranks": test["ranks"],
             "params": {"control_rank": sel(ranks), "test_rank": sel(ranks), "control_iteration": sel(steps),
                        "test_iteration": sel(steps), "device": rng.choice(["ALL", "CPU", "GPU"]),
-                       "short": rng.random() < 0.4, "same_object": same and rng.random() < 0.5, "same": same}}
+                       "short": rng.random() < 0.4, "same_object": same and rng.random() < 0.5, "same": same,
+                       "labels": rng.choice([["control", "test"], ["control", "test"], ["run", "run"], ["t1", "t1"], ["a b", "a"]])}}
     return case
 
 
@@ -76,8 +77,9 @@ def observe(case):
         from hta.common.trace import Trace
         from hta.trace_diff import DeviceType, LabeledTrace, TraceDiff
         from hta.utils.utils import shorten_name
-        lc = LabeledTrace(label="control", t=Trace(trace_files=dict(f1), trace_dir=os.path.dirname(f1[0])))
-        lt = lc if p["same_object"] else LabeledTrace(label="test", t=Trace(trace_files=dict(f2), trace_dir=os.path.dirname(f2[0])))
+        lab_c, lab_t = p.get("labels") or ["control", "test"]
+        lc = LabeledTrace(label=lab_c, t=Trace(trace_files=dict(f1), trace_dir=os.path.dirname(f1[0])))
+        lt = lc if p["same_object"] else LabeledTrace(label=lab_t, t=Trace(trace_files=dict(f2), trace_dir=os.path.dirname(f2[0])))
         crow = {r: htaio.rows_of(lc.t, r) for r in lc.ranks()}
         trow = {r: htaio.rows_of(lt.t, r) for r in lt.ranks()}
         names = sorted({x[9] for rows in list(crow.values()) + list(trow.values()) for x in rows})
